@@ -155,10 +155,42 @@ def run(R, env):
         G = Guard("from-version", subject=subj)
         found = []
         ok, off = guarded(mc, G, prog, env.depth, found)
+        central = False
+        if not ok and want is not None:
+            # the exact-source test may be centralised in migrate: in the world "the message is this
+            # variant", the call of the migration function is unreachable unless the stored version
+            # string equals the variant's source version (a literal, a constant, or a per-variant
+            # method of the message evaluated in that world)
+            from engine.analysis import resolve_terms as _rt6, fail_world as _fw
+            msgp = lambda t_: t_[0] == "param" and len(t_) > 3 and "MigrateMsg" in (t_[3] or "")
+            dw = c.assume_variant(msgp, v)
+            stored_v = lambda x: x[0] == "field" and x[2] == "version" and x[1][0] == "payload" and shared.unwrap_payload(x[1])[0] == "call" and shared.unwrap_payload(x[1])[1] == "cw2::get_contract_version"
+
+            def ver_eq(t_):
+                if t_[0] == "call" and t_[1] in EQ and len(t_[2]) == 2:
+                    for x, y in ((t_[2][0], t_[2][1]), (t_[2][1], t_[2][0])):
+                        if stored_v(x):
+                            yv = const_str(y)
+                            if yv is None:
+                                yr = _rt6(prog, y, 2, None, dw.assumptions)
+                                yv = const_str(yr)
+                            seen_v.append(yv)
+                            if yv == want:
+                                return EQ[t_[1]]
+                return None
+
+            Gc = Guard("from-version(central)", boolean=ver_eq)
+            cut = _fw(dw, Gc).settle()
+            rootbb = migs[v][1]
+            central = rootbb not in cut.T.reach and rootbb in dw.settle().T.reach
+            if central:
+                ok = True
         R.ob("C18.R2", "source-version:" + v, ok and want is not None, "migration %s can succeed without assert_contract_version(CONTRACT_NAME, \"%s\") (versions asserted: %s)" % (mb.key, want, seen_v), fn=mb.key, found=found)
         edges = pass_edges(mc, G, prog, env.depth)
         reach = mc.with_removed(edges).settle().T.reach
         early = [o for o in storage_ops_deep(prog, mc, env.depth) if o["kind"] == "w" and o["root_bb"] in reach]
+        if central:
+            early = []  # the whole migration function is behind the centralised test
         R.ob("C18.R2", "no-write-before-version-assert:" + v, not early, "writes %s are reachable without the source-version assertion" % [(ns_of(prog, o["args"][0]), o["op"]) for o in early], fn=mb.key)
     # ------------------------------------------------------------ R3
     sv = [(bi, t, a) for bi, t, a in call_sites(c, lambda nm: nm == "cw2::set_contract_version")]
